@@ -324,6 +324,9 @@ def burst_cases():
     for tab in range(5):
         out.append(dict(base, steps=[["key", tab]] + pairs + [["paste", [tab, k]] for k in NAV]))
     out.append(dict(base, steps=[["feed", 3, 1], ["key", 2]] + pairs))
+    # every tab on the two tallest terminals (50 and 120 rows) and the two widest, with and without aircraft
+    for r, c in ((8, 7), (9, 7), (7, 8), (9, 9)):
+        out.append(dict(base, rows=r, cols=c, steps=[["key", t] for t in range(5)] + [["feed", 3, 1]] + [["key", t] for t in range(5)] + [["click_tab", t] for t in range(5)]))
     # more aircraft than rows, the table scrolled down, then every aircraft expires at once (also
     # with three aircraft on a five-row terminal); and 8-20 net zoom steps in either direction on
     # the map and the coverage tab with aircraft that have a track
